@@ -51,10 +51,10 @@ type apiOp struct {
 	usesPool  bool
 }
 
-func pe(p int, err error) Outcome { return Outcome{OK: err == nil, P: p, ErrIdx: -1} }
+func pe(p int, err error) Outcome { return Outcome{OK: err == nil, P: p, ErrIdx: -1, Err: err} }
 
 func pev(v interface{}, p int, err error) Outcome {
-	return Outcome{OK: err == nil, P: p, ErrIdx: -1, Val: normVal(v)}
+	return Outcome{OK: err == nil, P: p, ErrIdx: -1, Val: normVal(v), Err: err}
 }
 
 // normVal puts scalar results of every type into the small universe eqVal compares.
